@@ -2,6 +2,9 @@ from contextlib import contextmanager
 from typing import Generator, List
 
 
+ERROR_PREFIX = "An error occured while rendering components "
+
+
 @contextmanager
 def component_error_message(component_path: List[str]) -> Generator[None, None, None]:
     """
@@ -22,17 +25,18 @@ def component_error_message(component_path: List[str]) -> Generator[None, None, 
 
         # Access the exception's message, see https://stackoverflow.com/a/75549200/9788634
         if len(err.args) and err.args[0] is not None:
-            if not components:
-                orig_msg = str(err.args[0])
-            else:
-                orig_msg = err.args[0].split("\n", 1)[-1]
+            # NOTE: The first argument may be anything, not just a string (e.g. `KeyError(1)`, `OSError(2, "msg")`)
+            orig_msg = str(err.args[0])
+            # Remove the prefix that we added when the error passed through an inner component
+            if orig_msg.startswith(ERROR_PREFIX):
+                orig_msg = orig_msg.split("\n", 1)[-1]
         else:
             orig_msg = str(err)
 
         # Format component path as
         # "MyPage > MyComponent > MyComponent(slot:content) > Base(slot:tab)"
         comp_path = " > ".join(components)
-        prefix = f"An error occured while rendering components {comp_path}:\n"
+        prefix = f"{ERROR_PREFIX}{comp_path}:\n"
 
         err.args = (prefix + orig_msg,)  # tuple of one
 
